@@ -40,7 +40,9 @@ EXPLANATION = (
     "every `arg = l|r` selection and in peepNegate the operand swap must sit under a condition that evaluates to false when "
     "foamHasSideEffect := true, peepNoSideFx := false and peepFoamIsValue := false (an impure operand is not a literal). Q5: in of_deadv.c every assignment to a `.used` "
     "usage state is monotone over the states its variable family can have (initial 0 and every constant assigned to the family): for "
-    "each state s and each value t the write can store, if the enclosing conditions on the same lvalue hold for s then t >= s. Not decided: that any pass preserves "
+    "each state s and each value t the write can store, if the enclosing conditions on the same lvalue hold for s then t >= s. Q6: in of_comex.c every function that both "
+    "generates available expressions for a statement (cseGenExp/cseGenExpDeeply) and kills by that statement's definition "
+    "(cseKillExpFrDef) does so in that order. Not decided: that any pass preserves "
     "meaning on any program.")
 
 FROZEN = os.path.join(os.path.dirname(__file__), "frozen")
@@ -512,6 +514,34 @@ def q5(rep):
     rep.floor("writes of the dead-variable usage state", n, 2)
 
 
+def q6(rep):
+    """Available-expression analysis of the CSE pass: for one statement, the expressions it computes are generated before its own
+    definition kills the expressions that mention the defined variable -- in the block summary and in the per-statement walk alike."""
+    f = common.extract("of_comex.c", all_trees=True)
+    n = 0
+    for name, fn in sorted(f.funcs.items()):
+        if "body" not in fn or not fn.get("file", "").endswith("of_comex.c"):
+            continue
+        gens = [c for c in calls(fn["body"]) if c.get("callee") in ("cseGenExp", "cseGenExpDeeply") and c.get("callee") != name]
+        kills = [c for c in calls(fn["body"], "cseKillExpFrDef")]
+        if not gens or not kills:
+            continue
+        n += 1
+        # same operand (the statement) in both
+        pairs = [(g, k) for g in gens for k in kills if render(strip(g["c"][1])) == render(strip(k["c"][1]))]
+        if not pairs:
+            continue
+        key = "gen-before-kill:%s" % name
+        g, k = pairs[0]
+        if g["l"] < k["l"]:
+            rep.ok("Q6", key, sample={"function": name, "gen_line": g["l"], "kill_line": k["l"]})
+        else:
+            rep.violation("Q6", key, "of_comex.c:%d (%s)" % (k["l"], name),
+                          "the definition made by a statement kills before the statement's own expressions are generated: for x := x + 7 the "
+                          "old x + 7 is reported available after the statement, and a later x + 7 is replaced by the stale value")
+    rep.floor("functions combining generation and kill of available expressions", n, 2)
+
+
 def q3(rep, f_foam):
     frozen = json.load(open(os.path.join(FROZEN, "c02_classifier_tags.json")))
     for fname, want in frozen.items():
@@ -678,6 +708,7 @@ def run(tier, only=None):
     q3(rep, f_foam)
     q4(rep, f_peep)
     q5(rep)
+    q6(rep)
     rep.assumptions += ["allocation and errno are not effects",
                         "the meaning of the table columns is the one fixed by peepBinaryBCall/peepUnaryBCall/peepNegate "
                         "(operands of a binary dual are swapped)",
